@@ -140,15 +140,39 @@ Op("set_channel", lambda r: (G.gen_rel_wf(r), r.choice([0, 1, 2, 5, 15])), _impl
    lambda inp: f"show_msgs (set_channel {lit_msgs(inp[0])} {z(inp[1])})")
 
 
-def _impl_scale(inp):
-    ms, k = inp
-    s = mk_rel(ms)
+def scale_apply(inp):
+    """inp[2]: 'rel' (relative view given) | 'read' (absolute view read before) | 'abs' (built through the absolute view)"""
+    ms, k = inp[0], inp[1]
+    how = inp[2] if len(inp) > 2 else "rel"
+    s = mk_track(ms, how)
     s.scale(k, quantise_afterwards=False)
-    return show_msgs(rel_of(s))
+    return s
 
 
-Op("scale", lambda r: (G.gen_rel_wf(r), r.randint(1, 8)), _impl_scale,
-   lambda inp: f"show_msgs (scale {lit_msgs(inp[0])} {z(inp[1])})")
+def _impl_scale(inp):
+    s = scale_apply(inp)
+    how = inp[2] if len(inp) > 2 else "rel"
+    if how == "rel":
+        return show_msgs(rel_of(s))
+    return show_msgs(abs_of(s)) + "/" + show_msgs(rel_of(s))      # the absolute view first: it was fresh before the call
+
+
+def _coq_scale(inp):
+    how = inp[2] if len(inp) > 2 else "rel"
+    if how == "rel":
+        return f"show_msgs (scale {lit_msgs(inp[0])} {z(inp[1])})"
+    r0 = track_rel_lit(inp[0], how)
+    return f"(let r := scale {r0} {z(inp[1])} in show_msgs (to_abs r) ++ \"/\" ++ show_msgs r)"
+
+
+def _gen_scale(r):
+    trailing = r.random() < 0.5
+    ms = G.gen_rel_wf(r, trailing=trailing)
+    how = r.choice(["rel", "rel", "read"] + ([] if (ms and ms[-1][0] == "WAIT") else ["abs"]))
+    return ms, r.randint(1, 8), how
+
+
+Op("scale", _gen_scale, _impl_scale, _coq_scale)
 
 
 # ---------------------------------------------------------------------------------------------- transpose
@@ -171,7 +195,13 @@ Op("transpose_rel", _gen_transpose, _impl_transpose_rel,
 
 # ---------------------------------------------------------------------------------------------- split
 def _gen_split(r):
-    ms = G.gen_rel_wf(r, hi=r.choice([30, 60, 100])) if r.random() < 0.8 else G.gen_rel_malformed(r)
+    x = r.random()
+    if x < 0.7:
+        ms = G.gen_rel_wf(r, hi=r.choice([30, 60, 100]))
+    elif x < 0.8:      # the two ends of the pitch range on neighbouring channels, sounding together
+        ms = G.gen_rel_wf(r, hi=r.choice([30, 60]), n=r.randint(2, 6), pitches=G.EDGE_PITCHES, chans=[0, 1, 1, 2], extra=False)
+    else:
+        ms = G.gen_rel_malformed(r)
     return ms, G.gen_caps(r)
 
 
@@ -412,12 +442,28 @@ def _gen_equals(r):
         a.append(KS(0, r.choice(G.KEYS), r.choice([0, 0, 24, 96])))
     b, kind = perturb(r, a)
     flags = tuple(r.random() < 0.3 for _ in range(4))
-    return a, b, flags, kind
+    # last: the second sequence is assembled from the first one's Message OBJECTS wherever the content coincides
+    return a, b, flags, kind, r.random() < 0.3
+
+
+def mk_abs_pair(a, b, share):
+    sa = mk_abs(a)
+    if not share:
+        return sa, mk_abs(b)
+    pool = {}
+    for m in sa.abs._messages:
+        pool.setdefault(from_message(m), []).append(m)
+    sb = Sequence()
+    for t in b:
+        objs = pool.get(tuple(t), [])
+        sb.add_absolute_message(objs.pop() if objs else to_message(t))
+    return sa, sb
 
 
 def _impl_equals(inp):
-    a, b, fl, _ = inp
-    res = mk_abs(a).equals(mk_abs(b), *fl)
+    a, b, fl = inp[0], inp[1], inp[2]
+    sa0, sb0 = mk_abs_pair(a, b, len(inp) > 4 and inp[4])
+    res = sa0.equals(sb0, *fl)
     if not any(fl):
         # the operators: Sequence.__eq__, AbsoluteSequence.__eq__, RelativeSequence.__eq__ are equals() with all flags off;
         # anything that is not a sequence is unequal
@@ -1001,7 +1047,7 @@ def gen_history(r, nsteps=None, two_sided=False):
                       "OQnl", "OQuantNorm", "ORefresh", "OReadAbs", "OReadRel", "OEquals", "OPairings", "ODuration",
                       "OEditAbs", "OEditRel", "OCopy", "OCopy", "OBarInit", "OBarCopy", "OSplitBars", "new",
                       "OReadAbs", "OReadRel", "ONormalise", "OTranspose", "OQuantDefault", "OQnlDefault", "OQuantNormDefault",
-                      "OScaleQ", "OScaleDown"])
+                      "OScaleQ", "OScaleDown", "OOverwriteSelf", "OOverwriteBad"])
         if k == "new":
             new()
         elif k == "OCopy":
@@ -1040,6 +1086,14 @@ def gen_history(r, nsteps=None, two_sided=False):
             # number of pieces is not known here: the executor appends as many kinds as pieces
         elif k == "OScale":
             ops.append((k, i, r.randint(1, 4)))
+        elif k == "OOverwriteSelf":
+            view, keep = r.choice(["abs", "abs", "rel"]), r.choice(list(KEEP))
+            try:
+                ops.append((k, i, view, keep, _own_messages(ops, i, view, keep)))
+            except Exception:
+                pass
+        elif k == "OOverwriteBad":
+            ops.append((k, i, ON(0, 61, 90, G.tick(r))))
         elif k == "OScaleQ":
             ops.append((k, i, r.randint(1, 3)))
         elif k == "OScaleDown":
@@ -1118,6 +1172,14 @@ def _exec(ops, upto=None, trace=True, return_store=False, hook=None):
                 store[o[1]].add_relative_message(to_message(o[2], rel=True), index=o[3])
             elif k == "OConcat":
                 store[o[1]].concatenate([store[j].copy() for j in o[2]])
+            elif k == "OOverwriteSelf":   # overwrite a view with a lazy iterable over the sequence's own messages
+                keep = KEEP[o[3]]
+                if o[2] == "abs":
+                    store[o[1]].overwrite_absolute_messages(m for m in store[o[1]].messages_abs() if keep(m))
+                else:
+                    store[o[1]].overwrite_relative_messages(m for m in store[o[1]].messages_rel() if keep(m))
+            elif k == "OOverwriteBad":    # the second message has no time: binary_insort raises before anything is installed
+                store[o[1]].overwrite_absolute_messages([to_message(o[2]), Message(message_type=MT.NOTE_ON, channel=0, note=60, velocity=1)])
             elif k == "OConcatShare":     # plain concatenate: the receiver takes over the operands' Message objects
                 store[o[1]].concatenate([store[j] for j in o[2]])
             elif k == "OConcatLit":
@@ -1221,6 +1283,19 @@ def _exec(ops, upto=None, trace=True, return_store=False, hook=None):
     return "$".join(tr)
 
 
+KEEP = {"all": lambda m: True, "notes": lambda m: m.message_type in (MT.NOTE_ON, MT.NOTE_OFF),
+        "no_sigs": lambda m: m.message_type not in (MT.TIME_SIGNATURE, MT.KEY_SIGNATURE),
+        "chan0": lambda m: m.channel == 0}
+
+
+def _own_messages(ops, i, view, keep):
+    """what the lazy iterable yields: the messages of the view as they are stored when the call starts (tuples)"""
+    store, _ = _exec(ops, return_store=True)
+    if view == "abs":
+        return [from_message(m) for m in store[i].abs._messages if KEEP[keep](m)]
+    return [from_message(m, rel=True) for m in store[i].rel._messages if KEEP[keep](m)]
+
+
 def _has_float(ops, i):
     store, _ = _exec(ops, return_store=True)
     for rep in (getattr(store[i], "_abs", None), getattr(store[i], "_rel", None)):
@@ -1288,6 +1363,12 @@ def lit_op(o):
         return f"HSCALEDOWN {nat(o[1])} {z(o[2])} {meta} {then_}"
     if k == "OScaleFrac":
         return f"HFAIL (OReadRel {nat(o[1])}) SeqErr"
+    if k == "OOverwriteSelf":      # the model is given the yielded messages as a literal; reading the view refreshes it first
+        rd = "OReadAbs" if o[2] == "abs" else "OReadRel"
+        ow = "OOverwriteAbs" if o[2] == "abs" else "OOverwriteRel"
+        return f"HSEQ[{rd} {nat(o[1])}; {ow} {nat(o[1])} {lit_msgs(o[4])}]"
+    if k == "OOverwriteBad":
+        return "HRAISE TypeErr"
     if k in ("OOverwriteAbs", "OOverwriteRel"):
         return f"{k} {nat(o[1])} {lit_msgs(o[2])}"
     if k in ("OSplit", "OQuantise"):
@@ -1315,7 +1396,7 @@ def lit_hops(ops):
     out = []
     for o in ops:
         l = lit_op(o)
-        out.append("HSeq " + l[4:] if l.startswith("HSEQ[") else "HScaleDown " + l[11:] if l.startswith("HSCALEDOWN ") else "HFail " + l[6:] if l.startswith("HFAIL ") else f"HOp ({l})")
+        out.append("HSeq " + l[4:] if l.startswith("HSEQ[") else "HScaleDown " + l[11:] if l.startswith("HSCALEDOWN ") else "HFail " + l[6:] if l.startswith("HFAIL ") else "HRaise " + l[7:] if l.startswith("HRAISE ") else f"HOp ({l})")
     return "[" + "; ".join(out) + "]"
 
 
@@ -1611,6 +1692,26 @@ def _impl_midi_rt(rels):
 
 Op("midi_roundtrip", _gen_midi_rt, _impl_midi_rt, lambda rels: f"show_seqs (save_load {lit_msgss(rels)})",
    lambda rels: sum(len(t) for t in rels) > 3)
+
+
+def _gen_midi_rt_mi(r):
+    rels = _gen_midi_rt(r)
+    return rels, r.randrange(len(rels))
+
+
+def _impl_midi_rt_mi(inp):
+    rels, mi = inp
+    ss = [mk_rel(ms) for ms in rels]
+    path = os.path.join(TMP, f"s{os.getpid()}.mid")
+    Sequence.sequences_save(ss, path)
+    back = Sequence.sequences_load(path, target_meta_track_index=mi)
+    return "#".join(show_seq(s) for s in back)
+
+
+Op("midi_roundtrip_mi", _gen_midi_rt_mi, _impl_midi_rt_mi,
+   lambda inp: (f"show_seqs (let rels := {lit_msgss(inp[0])} in convert_exec PPQN (map to_events rels) "
+                f"(map (fun i => [i]) (rangeZ_aux (List.length rels) 0)) (rangeZ_aux (List.length rels) 0) {z(inp[1])})"),
+   lambda inp: sum(len(t) for t in inp[0]) > 3 and inp[1] > 0)
 
 
 # ---------------------------------------------------------------------------------------------- music theory (validates the translator)
